@@ -55,8 +55,30 @@ func judge(sh *shared, o *observation) {
 			return
 		}
 	}
+	// results asked while the restart was in progress: refused, or exact
+	if o.DuringRestart != "" {
+		im.Hist("results-during-restart:" + strings.SplitN(o.DuringRestart, ":", 2)[0])
+		if strings.HasPrefix(o.DuringRestart, "differs") || strings.HasPrefix(o.DuringRestart, "no-end") {
+			viol("results-during-restart", "results of a finished unit asked while the daemon was starting: "+o.DuringRestart)
+		}
+	}
+	// a unit directory appearing under a running daemon
+	if o.Late != nil {
+		r := residents[0].Ref
+		switch {
+		case o.Late.Latency > 5 || strings.Contains(o.Late.Err, "timeout"):
+			viol("query-blocked:rescan", fmt.Sprintf("status of a unit found by rescanning took %.1f s (%s)", o.Late.Latency, o.Late.Err))
+		case o.Late.Err != "" || !o.Late.Listed || o.Late.State != r.State || o.Late.Size != r.Size || o.Late.WorkType != r.WorkType:
+			viol("rescan-differs", fmt.Sprintf("a unit directory (state %d size %d type %q) found by rescanning is answered listed=%v state %d size %d type %q (%s)",
+				r.State, r.Size, r.WorkType, o.Late.Listed, o.Late.State, o.Late.Size, o.Late.WorkType, o.Late.Err))
+		}
+	}
 	if !o.Acked {
 		im.Hist("outcome:never-acknowledged")
+		return
+	}
+	if o.Stdin != "" && o.Stdin != "kept" {
+		viol("stdin-lost", fmt.Sprintf("the input of unit %s, acknowledged by the final reply of work submit, is not on disk in full: %s", o.Unit, o.Stdin))
 		return
 	}
 	v := o.AtRestart
@@ -71,7 +93,7 @@ func judge(sh *shared, o *observation) {
 		viol("not-listed", "acknowledged unit "+o.Unit+" is not listed after the restart ("+v.Err+")")
 		return
 	case v.WorkType != wantType:
-		if emptied && inWindow && v.WorkType == "" {
+		if inWindow && v.WorkType == "" && (emptied || v.Unknown) {
 			// the known shape: the record was empty, recovery rewrote it without its work type
 			viol("truncate-window-record-emptied", fmt.Sprintf("unit %s lost its record: listed with WorkType %q, state %d, %q, unknown-worktype=%v (before the crash: %s)",
 				o.Unit, v.WorkType, v.State, v.Detail, v.Unknown, beforeText(o)))
@@ -107,12 +129,20 @@ func judge(sh *shared, o *observation) {
 	case o.Finished:
 		// O2
 		im.Hist("phase:finished")
-		if v.State != o.Before.State || v.Size != o.Before.Size || v.Detail != o.Before.Detail ||
-			o.Final.State != o.Before.State || o.Final.Size != o.Before.Size || o.Final.Detail != o.Before.Detail {
+		// (the Detail text of a remote unit that never started is rewritten by every restart —
+		// "Failed to restart: remote work had not previously started" replaces e.g. "Work unit
+		// expired on …"; state and size, which the property names, are compared, the text recorded)
+		detailFree := o.Kind != "local" && !o.Before.Started
+		if detailFree && v.Detail != o.Before.Detail {
+			im.Hist("observation:detail-of-unstarted-remote-unit-rewritten-at-restart")
+		}
+		sameDetail := func(a, b string) bool { return detailFree || a == b }
+		if v.State != o.Before.State || v.Size != o.Before.Size || !sameDetail(v.Detail, o.Before.Detail) ||
+			o.Final.State != o.Before.State || o.Final.Size != o.Before.Size || !sameDetail(o.Final.Detail, o.Before.Detail) {
 			viol("outcome-lost", fmt.Sprintf("finished unit %s (state %d %q, size %d) reports state %d %q size %d after the restart, later state %d %q size %d",
 				o.Unit, o.Before.State, o.Before.Detail, o.Before.Size, v.State, v.Detail, v.Size, o.Final.State, o.Final.Detail, o.Final.Size))
 		} else if o.Cycle2 != nil && o.Cycle2.Listed && o.Cycle2.WorkType != "" &&
-			(o.Cycle2.State != o.Before.State || o.Cycle2.Size != o.Before.Size || o.Cycle2.Detail != o.Before.Detail) {
+			(o.Cycle2.State != o.Before.State || o.Cycle2.Size != o.Before.Size || !sameDetail(o.Cycle2.Detail, o.Before.Detail)) {
 			viol("outcome-lost", fmt.Sprintf("finished unit %s (state %d %q, size %d) reports state %d %q size %d after the second restart",
 				o.Unit, o.Before.State, o.Before.Detail, o.Before.Size, o.Cycle2.State, o.Cycle2.Detail, o.Cycle2.Size))
 		} else if o.Results != "complete" {
